@@ -1,3 +1,4 @@
+import html
 import json
 import logging
 from typing import List
@@ -90,7 +91,7 @@ def inputs(form_args):
     for name, value in form_args.items():
         if name == "scope" and isinstance(value, list):
             value = " ".join(value)
-        element.append(html_field.format(name, value))
+        element.append(html_field.format(html.escape(str(name)), html.escape(str(value))))
     return "\n".join(element)
 
 
@@ -835,7 +836,7 @@ class Authorization(Endpoint):
                 if "return_type" in _args:
                     del _args["return_type"]
 
-            msg = FORM_POST.format(inputs=inputs(_args), action=return_uri)
+            msg = FORM_POST.format(inputs=inputs(_args), action=html.escape(return_uri))
             kwargs.update(
                 {
                     "response_msg": msg,
